@@ -174,6 +174,9 @@ func cmdCheck(args []string) {
 		for _, n := range fr.Notes {
 			assume(fr.Short + ": " + n)
 		}
+		for _, c := range fr.Cross {
+			assume("clause assumed at call sites here and verified by the check of the property it is tagged with: " + c)
+		}
 		for _, u := range fr.Used {
 			if c := e.contracts.M[u]; c != nil && (c.Trusted || c.IsIface) {
 				assume("assumed contract (body not verified): " + shortFuncName(u))
